@@ -61,6 +61,63 @@ def nested_tables(C, f):
     return out
 
 
+def default_value_table(C, R, tp, mp):
+    """r5: EdgeParameter.default is computed (not a plain accessor): decision table over (declared default?, nullable?)."""
+    from tfv import absint as A
+    from tfv import stdmodel as M
+    R.rule("r5", "EdgeParameter.default: the declared default (as JSON) if there is one, else JSON null for a nullable parameter, else no value")
+    arm = tp.get("EdgeParameter", {}).get("default")
+    if arm is None:
+        R.fail("r5", "anchor", C.loc(mp["sp"]), "no arm for EdgeParameter.default")
+        return
+    clo = None
+    for c in calls_in(arm["body"]):
+        if (c.get("callee") or "").endswith("resolve_property_with") and len(c.get("args", [])) == 2 and strip(c["args"][1]).get("k") == "closure":
+            clo = strip(c["args"][1])
+    if clo is None:
+        R.fail("r5", "anchor:closure", C.loc(arm["sp"]), "EdgeParameter.default is not computed by a closure given to resolve_property_with")
+        return
+    FVp = "trustfall_core::ir::value::FieldValue"
+    I = M.intrinsics()
+    I["core::convert::TryInto::try_into"] = lambda ip, n, a: M.ok(A.Enum(FVp, "String", [A.Sym("converted(%s)" % A.deref(a[0]).name)]))
+    I["core::convert::TryFrom::try_from"] = I["core::convert::TryInto::try_into"]
+    I["core::convert::From::from"] = lambda ip, n, a: A.deref(a[0])
+    I["core::convert::Into::into"] = lambda ip, n, a: A.deref(a[0])
+    I["serde_json::to_string"] = lambda ip, n, a: M.ok("json(%r)" % (A.deref(a[0]),))
+    I["serde_json::ser::to_string"] = I["serde_json::to_string"]
+    I["const:" + FVp + "::NULL"] = lambda ip, n, a: A.Enum(FVp, "Null")
+    want = {(True, True): "declared", (True, False): "declared", (False, True): "null", (False, False): "none"}
+    for (has_default, nullable), w in sorted(want.items()):
+        dv = M.some(A.Struct("Positioned", {"node": A.Sym("declared-default"), "pos": A.Sym("pos")})) if has_default else M.none()
+        defn = A.Struct("InputValueDefinition", {
+            "default_value": dv,
+            "ty": A.Struct("Positioned", {"node": A.Struct("Type", {"nullable": nullable, "base": A.Sym("base")}), "pos": A.Sym("pos")}),
+            "name": A.Struct("Positioned", {"node": "p", "pos": A.Sym("pos")})})
+        vertex = A.Enum(AD + "SchemaVertex", "EdgeParameter", [A.Struct(AD + "EdgeParameter", {"defn": defn})])
+        try:
+            ip = A.Interp(C, I)
+            res = A.deref(ip.call_closure(("closure", clo, {}), [vertex]))
+        except A.Unsupported as e:
+            R.fail("r5", "unanalysable/default=%s,nullable=%s" % (has_default, nullable), C.loc(clo["sp"]), "abstract evaluation failed: %s (fail closed)" % e)
+            continue
+        except A.PanicReached as e:
+            R.fail("r5", "panic/default=%s,nullable=%s" % (has_default, nullable), C.loc(clo["sp"]), "the resolver panics: %s" % e.what)
+            continue
+        # the closure ends in `.into()` on an Option<String>: FieldValue::String(json) or FieldValue::Null
+        txt = repr(res)
+        if isinstance(res, A.Enum) and res.adt == M.OPTION:
+            got = "none" if res.variant == "None" else ("declared" if "declared-default" in txt else "null" if "Null" in txt else "?")
+        elif isinstance(res, A.Enum) and res.variant == "Null":
+            got = "none"
+        else:
+            got = "declared" if "declared-default" in txt else "null" if "Null" in txt else "?"
+        R.check(got == w, "r5", "default/declared=%s,nullable=%s" % (has_default, nullable), C.loc(clo["sp"]),
+                "for a %s edge parameter %s a declared default value, introspection reports %s (expected %s)"
+                % ("nullable" if nullable else "non-nullable", "with" if has_default else "without",
+                   {"declared": "the declared default", "null": "JSON null", "none": "no default", "?": "something else: " + txt[:80]}[got],
+                   {"declared": "the declared default", "null": "JSON null", "none": "no default"}[w]), {"result": txt[:120]})
+
+
 def run(ctx, R):
     C = ctx.core
     R.rule("r1", "declared names = resolver arms (properties, edges, entry points), both directions")
@@ -90,6 +147,7 @@ def run(ctx, R):
         R.fail("r1", "anchor:adapter", "-", "SchemaAdapter's Adapter impl not found")
         return
     tp, tn = nested_tables(C, mp), nested_tables(C, mn)
+    default_value_table(C, R, tp, mp)
     for what, decl, table, f in (("property", decl_props, tp, mp), ("edge", decl_edges, tn, mn)):
         for t in sorted(set(decl) | set(table)):
             d, a = decl.get(t, set()), set(table.get(t, {}))
